@@ -1,10 +1,11 @@
 """C03 — server-level property decided on event histories (see simcheck.py / simgen.py)."""
-import simcheck
+import simcheck, realcheck
 
 
 def run(chk):
     chk.prove("Properties_C03")
     simcheck.run_sim(chk, flavour=FLAVOUR)
+    realcheck.run(chk)
 
 
 replay = simcheck.replay
